@@ -34,6 +34,7 @@ structure Sim where
   s : CState
   sched : List (Nat × Nat × Bool)      -- (time, request, isTimeout) still to happen
   scheduled : List Nat                 -- requests that have been given a fate
+  now : Nat := 0                       -- time of the last event handled
 
 def scheduleNew (behs : List Beh) (now : Nat) (sim : Sim) : Sim :=
   sim.s.conns.foldl (fun acc k => match k.cur with
@@ -60,25 +61,42 @@ def simLoop (behs : List Beh) (limit : Nat) : Nat → Sim → Sim
       let ev : Option Ev := if isTo then some (.expire r) else
         (sim.s.conns.findIdx? (fun k => k.cur = some r)).map Ev.answer
       let s' := match ev with | some e => step true sim.s e | none => sim.s
-      simLoop behs limit fuel (scheduleNew behs t { sim with s := s', sched := rest })
+      simLoop behs limit fuel (scheduleNew behs t { sim with s := s', sched := rest, now := t })
 
 def clientOp : List String → Option String
   | ["cl", _threads, mS, settleS, behS] => do
     let m ← mS.toNat?
     let settle ← settleS.toNat?
-    let behs ← (behS.splitOn ",").mapM parseBeh
+    -- "/" separates batches: the next batch is issued when everything before it is settled
+    let toks := behS.splitOn ","
+    let behs ← (toks.filter (· != "/")).mapM parseBeh
     let n := behs.length
+    -- the batches as lists of request indices
+    let batches : List (List Nat) := Id.run do
+      let mut out : List (List Nat) := []
+      let mut cur : List Nat := []
+      let mut i := 0
+      for t in toks do
+        if t == "/" then
+          out := out ++ [cur]; cur := []
+        else
+          cur := cur ++ [i]; i := i + 1
+      return out ++ [cur]
     -- a connection closed by the server right after an answer is outside the model unless nothing follows
     if (behs.dropLast.any fun b => b.kind == 'X') then pure "unspecified" else
-    let s0 := (List.range n).foldl (fun s i => step true s (.issue i)) (init m)
-    let sim0 := scheduleNew behs 0 { s := s0, sched := [], scheduled := [] }
-    let sim := simLoop behs settle (4 * n + 8) sim0
+    -- a batch is only issued after the earlier ones are settled: a request that never settles blocks the model's notion of time
+    if batches.length > 1 && (behs.any fun b => b.kind == 'N' && b.timeout == 0) then pure "unspecified" else
+    let sim := batches.foldl (fun (sim : Sim) batch =>
+      let s1 := batch.foldl (fun s i => step true s (.issue i)) sim.s
+      let sim1 := scheduleNew behs sim.now { sim with s := s1 }
+      simLoop behs (sim.now + settle) (4 * n + 8) sim1) { s := init m, sched := [], scheduled := [] }
+    let biggest := batches.foldl (fun a b => max a b.length) 0
     let results := (List.range n).map fun i =>
       match sim.s.log.find? (fun p => p.1 == i) with
       | some (_, .ok t) => s!"ok:answer-to:{t}"
       | some (_, .timeout) => "rej:timeout"
       | none => "pending"
-    pure s!"results={",".intercalate results} peak={min m n}"
+    pure s!"results={",".intercalate results} peak={min m biggest}"
   | _ => none
 
 end Drv
